@@ -45,14 +45,11 @@ func genK8s(c *rig.Ctx, i int) Case {
 func runK8s(c *rig.Ctx, cs Case, m mode) int {
 	var v verdict
 	fail := func(kind, class, what string, impl, model interface{}) {
-		v.note(kind)
-		if m.record {
-			c.Fail(rig.Failure{Kind: kind, Class: class, What: what, Case: cs, Impl: impl, Model: model})
-		}
+		v.note(rig.Failure{Kind: kind, Class: class, What: what, Case: cs, Impl: impl, Model: model})
 	}
 	if uint32(cs.N) == 0 {
 		fail("diff", "c13.bad-case", "k8s case with a shard count whose uint32 is 0", nil, nil)
-		return v.sev
+		return v.flush(c, m)
 	}
 	n, shard := int(cs.N), int(cs.Shard)
 	var objs []runtime.Object
@@ -117,11 +114,11 @@ func runK8s(c *rig.Ctx, cs Case, m mode) int {
 	}
 	if panicked {
 		fail("judge", "c13.panic", "k8s store panicked: "+msg, msg, nil)
-		return v.sev
+		return v.flush(c, m)
 	}
 	if loadErr != nil {
 		fail("diff", "c13.harness", "Load: "+loadErr.Error(), nil, nil)
-		return v.sev
+		return v.flush(c, m)
 	}
 	// judge: Load keeps exactly the items of the store's own shard; Save refuses exactly the conditions of other shards
 	var want []string
@@ -145,7 +142,7 @@ func runK8s(c *rig.Ctx, cs Case, m mode) int {
 	}
 	if err := c.Model("C13.k8s", map[string]interface{}{"shard": cs.Shard, "n": cs.N, "items": emptyIfNil(cs.Items), "saves": emptyIfNil(cs.Saves)}, &mod); err != nil {
 		fail("diff", "c13.model-error", "model error "+err.Error(), nil, nil)
-		return v.sev
+		return v.flush(c, m)
 	}
 	var ml []string
 	json.Unmarshal(mod.Load, &ml)
@@ -155,5 +152,5 @@ func runK8s(c *rig.Ctx, cs Case, m mode) int {
 	if rig.Canon(emptyIfNil(mod.Saves)) != rig.Canon(emptyIfNil(saves)) {
 		fail("diff", "c13.k8s-save", fmt.Sprintf("Save: model %v, code %v", mod.Saves, saves), saves, mod.Saves)
 	}
-	return v.sev
+	return v.flush(c, m)
 }
